@@ -667,8 +667,9 @@ impl GState {
                     12 => Op::SeekCur(h, *rng.pick(&[0i32, 5, -5, i32::MAX, i32::MIN])),
                     13 => Op::SeekEnd(h, rng.below(3) as u32),
                     14 => Op::SeekStart(h, rng.below(3) as u32),
-                    0 => Op::Read(h, 10),
-                    1 => Op::Write(h, vec![1, 2, 3]),
+                    // (zero-length transfers on stale handles too: no short-cut around the handle check)
+                    0 => Op::Read(h, if h % 3 == 0 { 0 } else { 10 }),
+                    1 => Op::Write(h, if h % 3 == 1 { vec![] } else { vec![1, 2, 3] }),
                     2 => Op::CloseFile(h),
                     3 => Op::CloseDir(h),
                     4 => Op::CloseVolume(h),
